@@ -139,7 +139,7 @@ static inline it_t sv_end(const sv_t *s) { return s->off + (long)s->n; }
  * off <= SVLIT_BASE and its bytes come from svlit_tab (filled by
  * __cxx_global_init from the literal text in the AST) */
 #define SVLIT_BASE (-1000000000L)
-extern const char *svlit_tab[8];
+extern const char *svlit_tab[32];
 #define DEF_SV_LITERAL(NAME, TEXT, N, K) \
   static inline sv_t NAME(void) { sv_t r; r.off = SVLIT_BASE - (K); r.n = (N); return r; }
 static inline const char *sv_bytes(const sv_t *s) {
